@@ -14,11 +14,12 @@ reaches the server, and the final state.
 import itertools
 import random
 
-from vf import harness, protoids
+from vf import harness, protoids, explore, statehash, pysched
 from vf.refproto import codec
 from vf.refproto.codec import Reader, Short, Malformed
 from vf.refserver import (RefServer, LOGIN_UUID_BINARY_FROM,
                           TELEPORT_ID_FROM, KEEPALIVE_LONG_FROM)
+from vf.runner import ToolError, REPO
 
 LEVEL = 'model_checking'
 RULE = (
@@ -68,10 +69,32 @@ RULE = (
     'superclass registration and vice versa; L3 = one listener in each of '
     '(ie,io), (oe,oo), (ie,oe) with one or both late.  quick: 757 L1 (27 '
     'surroundings) + L2 (others all empty / all plain P / all late plain P) '
-    '+ L3; 47 and 340 L1 (3 uniform surroundings) + L2 (others all empty / '
-    'all late plain P).  thorough: 757 L1 + L2 with 27 surroundings + L3; '
+    '+ L3; 47 and 340 L1 (3 uniform surroundings) + L2 (others empty).  thorough: 757 L1 + L2 with 27 surroundings + L3; '
     '340 as quick 757; 47 L1 + L2 with 3 uniform surroundings.  '
-    'Seeds change the packet '
+    'One callable registered twice (every registration is a listener of '
+    'its own: it runs once per registration, at the position of that '
+    'registration): D = in one class, registrations A(f1), A(f2) for all '
+    '36 filter pairs (same filter; both match; only one matches; none), '
+    'ignoring or not, alone or with a different callable B (plain P; at 757 '
+    'also ignoring C) registered in between (up to 3 listeners in that '
+    'class), the other classes all empty or (757) all plain P; run with '
+    'every history; for the ~ histories also with the second registration '
+    'of A made late (757; all versions in thorough).  Calls are identified '
+    'by (class, callable).  Concurrent registration (schedules): user '
+    'threads A and B register listeners while a scheduling window is open '
+    '- every source line of register_packet_listener and '
+    'PacketListener.__init__ and every shared-attribute bytecode of '
+    'connection.py is a scheduling point - into the same class (ie/ie, '
+    'io/io, oe/oe, oo/oo) and into ie/io; all schedules up to the '
+    'preemption bound (vf.explore, iterative context bounding, visited-'
+    'state pruning): on a not yet connected Connection, 2 registrations '
+    'per thread, bound 2; on a connection in the play state (networking '
+    'thread as third agent), quick: 1 registration per thread, bound 1; '
+    'thorough: 2 per thread, bound 2.  Afterwards a keep-alive is '
+    'received and answered and a chat is written: every registered '
+    'listener must get each matching packet exactly once, early before '
+    'ordinary, one thread\'s registrations in its program order (the order '
+    'between the two threads is free).  Seeds change the packet '
     'field values and the order of tasks only.  state = distinct (protocol, '
     'history, per-packet call log with state seen at call time, server '
     'receipts, final state); transitions = listener calls + reactions + '
@@ -92,6 +115,11 @@ ASSUMPTIONS = [
     '(quiescence); a registration racing with a dispatch in progress is '
     'not explored, and a listener registered at quiescence must take '
     'effect for the next packet',
+    'concurrent registration: single bytecodes are atomic (CPython GIL); '
+    'nothing is claimed beyond the preemption bound or for scheduling '
+    'points finer than source lines inside register_packet_listener / '
+    'PacketListener.__init__; registration concurrent with a dispatch in '
+    'progress is not explored (no packet arrives while the window is open)',
 ]
 
 GROUPS = ('ie', 'io', 'oe', 'oo')
@@ -245,8 +273,15 @@ class Ref(object):
                 continue        # not registered yet
             types = self.types_of(flt, g)
             if any(t in self.sup[pkt[0]] for t in types):
-                out.append(('L', g, i, self.view() if g[0] == 'i' else None))
+                c = callable_of(spec, i)
+                out.append(('L', g, c, self.view() if g[0] == 'i' else None))
                 self.note_match(flt, types, pkt)
+                if c != i:
+                    self.flags.add('second registration of one callable '
+                                   'fires%s' % (
+                                       ' (the first does not match)'
+                                       if out.count(out[-1]) == 1
+                                       else ' (as well as the first)'))
                 if late:
                     self.flags.add('late-registered %s listener fires' % g)
                     if types and all(t != pkt[0] for t in types):
@@ -306,6 +341,13 @@ class Ref(object):
 
 def is_late(spec):
     return len(spec) > 2 and bool(spec[2])
+
+
+def callable_of(spec, i):
+    """Which callable a registration uses: its own (named by its index in
+    the class) or, for (filter, ignore, late, j), the one of registration
+    j < i of the same class."""
+    return spec[3] if len(spec) > 3 and spec[3] is not None else i
 
 
 def oracle(kind, v, cfg, vals, rank):
@@ -489,15 +531,20 @@ def execute(W, kind, v, cfg, plan, primary):
             return False
         return True
 
+    callables = {}
+
     def register(late):
-        for i in range(2):
+        for i in range(3):
             for g in REG_ORDER:
                 if i < len(cfg[g]) and is_late(cfg[g][i]) == late:
-                    flt, ign = cfg[g][i][:2]
+                    flt = cfg[g][i][0]
+                    c = callable_of(cfg[g][i], i)
+                    if (g, c) not in callables:
+                        callables[g, c] = make(g, c, cfg[g][c][1])
                     types = [real[t] for t in
                              filter_types(flt, g, kind, v, W.rank)]
                     guarded('register_packet_listener',
-                            conn.register_packet_listener, make(g, i, ign),
+                            conn.register_packet_listener, callables[g, c],
                             *types, early=(g[1] == 'e'),
                             outgoing=(g[0] == 'o'))
     register(False)
@@ -644,6 +691,7 @@ def project(obs, v, rank):
 def show_cfg(cfg):
     return ' '.join('%s=[%s]' % (g, ','.join(
         s[0] + ('!' if s[1] else '') + ('~' if is_late(s) else '')
+        + ('@%d' % s[3] if callable_of(s, None) is not None else '')
         for s in cfg[g])) for g in GROUPS)
 
 
@@ -789,9 +837,183 @@ def run_case(ctx, kind, v, cfg, seed):
         ctx.violation('%s v%d %s' % (kind, v, name),
                       'history %s, protocol %d, listeners %s (X! = raises '
                       'IgnorePacket for the primary packet, X~ = registered '
-                      'after the first packet of the history): %s'
+                      'after the first packet of the history, X@j = the '
+                      'callable of registration j of the class registered '
+                      'again; calls are named class+callable): %s'
                       % (kind, v, show_cfg(cfg), text), case)
     return res
+
+
+# ---------------------------------------------------------------------------
+# two user threads register concurrently: schedule exploration
+
+CANON = statehash.Canon(REPO, (__file__,))
+RACES = (('ie', 'ie'), ('io', 'io'), ('oe', 'oe'), ('oo', 'oo'),
+         ('ie', 'io'))
+RACE_VERSION = 757
+RACE_KA = 11
+
+
+def race_body(W, ga, gb, k, when):
+    """Agents A and B each register k listeners (the first on the concrete
+    keep-alive class of its direction, the second on Packet) into classes ga
+    and gb while the window is open - when = 'play': on a connection in the
+    play state (the networking thread is a third agent), 'before': before
+    connect(); afterwards one keep-alive comes in (its reply goes out) and
+    one chat is written."""
+    S, C = W.S, W.C
+    cl = classes()
+    real, rev = cl['real'], cl['rev']
+    W.serve(login=[('success',)])
+    conn = W.connection(allowed_versions={RACE_VERSION})
+
+    def reach_play():
+        conn.connect()
+        W.settle()
+        srv = W.servers[-1]
+        if srv.state != 'play' or \
+                type(conn.reactor).__name__ != 'PlayingReactor':
+            raise ToolError('race set-up did not reach play: %r %r'
+                            % (srv.state, srv.errors))
+        return srv
+    if when == 'play':
+        srv = reach_play()
+    results = []
+
+    def pkey(p):
+        name = rev.get(type(p), '?' + type(p).__name__)
+        return (name, getattr(p, KEYFIELD.get(name, 'id'), None))
+
+    def make(tag):
+        def callback(packet):
+            S.event('L', tag, pkey(packet))
+        return callback
+
+    def types_of(g, j):
+        if j % 2:
+            return ('Packet',)
+        return ('cb.KeepAlive',) if g[0] == 'i' else ('sb.KeepAlive',)
+    regs = [(who + str(j), g, types_of(g, j))
+            for who, g in (('A', ga), ('B', gb)) for j in range(k)]
+
+    def agent(who, g):
+        def user():
+            for j in range(k):
+                tag = who + str(j)
+                try:
+                    conn.register_packet_listener(
+                        make(tag), *[real[t] for t in types_of(g, j)],
+                        early=(g[1] == 'e'), outgoing=(g[0] == 'o'))
+                    results.append((tag, 'ok'))
+                except Exception as e:
+                    results.append((tag, type(e).__name__))
+        return user
+    S.state_fn = statehash.make_state_fn(W, CANON, [conn],
+                                         extra=lambda: tuple(results))
+    S.window = True
+    a = S.spawn(agent('A', ga), name='userA')
+    b = S.spawn(agent('B', gb), name='userB')
+    S.join(a)
+    S.join(b)
+    S.wait_quiescent()
+    S.window = False
+    if when != 'play':
+        srv = reach_play()
+    base = len(S.log)
+    srv.play(('keepalive', RACE_KA))
+    W.settle()
+    api = None
+    try:
+        conn.write_packet(real['sb.Chat'](message='one'))
+    except Exception as e:
+        api = '%s: %s' % (type(e).__name__, e)
+    W.settle()
+    # judge
+    viol = []
+    packets = [('cb.KeepAlive', RACE_KA), ('sb.KeepAlive', RACE_KA),
+               ('sb.Chat', 'one')]
+    calls = {pk: [] for pk in packets}
+    for ev in S.log[base:]:
+        if ev[0] == 'L':
+            calls.setdefault(ev[2], []).append(ev[1])
+    sup = cl['sup']
+    group_of = {tag: g for tag, g, _ in regs}
+    for pk in sorted(calls, key=repr):
+        got = calls[pk]
+        incoming = pk[0][:2] != 'sb'
+        want = [tag for tag, g, types in regs
+                if (g[0] == 'i') == incoming and pk[0] in sup
+                and any(t in sup[pk[0]] for t in types)]
+        if sorted(got) != sorted(want):
+            lost = [t for t in want if t not in got]
+            viol.append((
+                'lost-registration' if lost else 'call-count',
+                'after A and B registered %r concurrently, packet %r must '
+                'be delivered exactly once to each of %r; calls observed: '
+                '%r (registrations returned %r)'
+                % (regs, pk, want, got, results)))
+            continue
+        for x, y in itertools.combinations(range(len(got)), 2):
+            tx, ty = got[x], got[y]
+            gx, gy = group_of[tx], group_of[ty]
+            if (gx[1] != 'e' and gy[1] == 'e') or (
+                    gx == gy and tx[0] == ty[0] and tx[1:] > ty[1:]):
+                viol.append(('call-order', 'packet %r: %s is called before '
+                             '%s (early before ordinary; the registrations '
+                             'of one thread in its program order): %r'
+                             % (pk, tx, ty, got)))
+    want_rx = [('keepalive', RACE_KA), ('chat', 'one')]
+    if srv.play_rx != want_rx or srv.errors:
+        viol.append(('server-receipts', 'server decoded %r (errors %r), '
+                     'expected %r' % (srv.play_rx, srv.errors, want_rx)))
+    bad = [r for r in results if r[1] != 'ok']
+    exc = ['%s: %s' % (type(x.exc).__name__, x.exc) for x in S.agents
+           if x.exc is not None]
+    if bad or api or exc or conn.exception is not None:
+        viol.append(('exception', 'register_packet_listener results %r, '
+                     'write_packet %r, thread exceptions %r, '
+                     'connection.exception %r'
+                     % (bad, api, exc, conn.exception)))
+    outcome = tuple((pk[0], tuple(calls[pk])) for pk in packets)
+    return {'outcome': repr(outcome), 'violations': viol}
+
+
+def race_factory(params):
+    C = harness.setup()['C']
+    pysched.add_line_points(C.Connection.register_packet_listener,
+                            C.packets.PacketListener.__init__)
+    ga, gb, k = params['a'], params['b'], int(params['k'])
+    when = params.get('when', 'play')
+
+    def scenario(prefix, expect, visited=None, budget=0):
+        return harness.run(lambda W: race_body(W, ga, gb, k, when), prefix,
+                           tracing=True, expect=expect, horizon=30000,
+                           visited=visited,
+                           budget=budget if budget != 'replay' else 0,
+                           lenient=budget == 'replay')
+    return scenario
+
+
+def explore_races(ctx, ex):
+    runs = [(ga, gb, 2, 'before', 2) for ga, gb in RACES]
+    if ctx.thorough:
+        runs += [(ga, gb, 2, 'play', 2) for ga, gb in RACES]
+    else:
+        runs += [(ga, gb, 1, 'play', 1) for ga, gb in RACES]
+    for ga, gb, k, when, bound in runs:
+        params = {'a': ga, 'b': gb, 'k': k, 'when': when}
+        label = 'race %s/%s %s ' % (ga, gb, when)
+        res = ex.explore(ctx, race_factory, params, bound, label=label)
+        ctx.cls('%sk=%d bound=%d' % (label, k, bound))
+        ctx.extra[label.strip()] = {
+            'registrations_per_thread': k,
+            'preemption_bound': bound, 'complete_executions': res.execs,
+            'executions_cut_at_a_visited_state': res.pruned,
+            'distinct_outcomes': len(res.outcomes),
+            'executions_with_preemption': res.with_pre}
+        if ga == gb and len(res.outcomes) < 2 and not res.violations:
+            raise ToolError('vacuous exploration: %s has one outcome'
+                            % label)
 
 
 # ---------------------------------------------------------------------------
@@ -894,7 +1116,7 @@ def late_configurations(tier, v):
     elif big or tier == 'thorough':
         l2_sur = [(x,) * 3 for x in sur3]
     else:
-        l2_sur = [((),) * 3, ((PLAIN_P_LATE,),) * 3]
+        l2_sur = [((),) * 3]
     for gi in range(4):
         for a, b in itertools.product(ALPH, ALPH):
             for pair in ((a, late_of(b)), (late_of(a), late_of(b))):
@@ -914,6 +1136,31 @@ def late_configurations(tier, v):
     return out
 
 
+def dup_configurations(tier, v, late=False):
+    """One callable registered twice in a class: filters (f1, f2) in all
+    36 combinations (same filter, both match, one matches, none), ignoring
+    or not; alone, or with a different callable registered in between;
+    late=True: the second registration of the callable is a late one."""
+    big = v == 757 or tier == 'thorough'
+    between = [None, PLAIN_P] + ([('C', True)] if big else [])
+    surround = [(), (PLAIN_P,)] if big and not late else [()]
+    out = set()
+    for gi in range(4):
+        for f1, f2 in itertools.product(FILTERS, FILTERS):
+            for ign in (False, True):
+                for b in between:
+                    first = (f1, ign)
+                    if b is None:
+                        grp = (first, (f2, ign, late, 0))
+                    else:
+                        grp = (first, b, (f2, ign, late, 0))
+                    for sur in surround:
+                        c = [sur] * 3
+                        c.insert(gi, grp)
+                        out.add(tuple(c))
+    return out
+
+
 def as_cfg(t):
     return dict(zip(GROUPS, t))
 
@@ -925,6 +1172,13 @@ def w_chunk(ctx, task):
 
 
 def run(ctx):
+    # the explorer forks its workers before anything else happens here; the
+    # parent process itself never executes a scenario
+    ex = explore.Explorer()
+    try:
+        explore_races(ctx, ex)
+    finally:
+        ex.close()
     from vf.runner import use_repo
     mc = use_repo()
     from vf.refserver import Rank
@@ -934,8 +1188,12 @@ def run(ctx):
     per_version = {}
     late_per_version = {}
     for v in VERSIONS:
-        cfgs = sorted(configurations(ctx.tier, v))
-        lcfgs = sorted(late_configurations(ctx.tier, v))
+        cfgs = sorted(configurations(ctx.tier, v)
+                      | dup_configurations(ctx.tier, v))
+        lcfgs = late_configurations(ctx.tier, v)
+        if v == 757 or ctx.thorough:
+            lcfgs |= dup_configurations(ctx.tier, v, late=True)
+        lcfgs = sorted(lcfgs)
         per_version[str(v)] = len(cfgs)
         late_per_version[str(v)] = len(lcfgs)
         rng.shuffle(cfgs)
@@ -965,8 +1223,32 @@ def run(ctx):
                           'compression on with threshold 64'})
 
 
+def replay_schedule(ctx, case):
+    harness.setup()
+    scenario = race_factory(case['params'])
+    x = scenario(list(case['choices']), None, None, 'replay')
+    if getattr(x, 'diverged', False):
+        print('  note: the recorded schedule cannot be followed on this tree '
+              '(different choice points); what the execution did instead is '
+              'judged below')
+    ctx.count()
+    res = x.result or {}
+    viol = list(res.get('violations', ()))
+    if x.failure is not None:
+        viol.append((x.failure[0], '%s: %s' % x.failure))
+    for key, what in viol:
+        ctx.violation('race %s/%s %s %s' % (
+            case['params']['a'], case['params']['b'],
+            case['params'].get('when', 'play'), key), what, case)
+
+
 def replay(ctx, case):
-    cfg = {g: tuple((str(s[0]), bool(s[1])) + ((True,) if is_late(s) else ())
+    if 'params' in case:
+        return replay_schedule(ctx, case)
+    cfg = {g: tuple((str(s[0]), bool(s[1]))
+                    + ((is_late(s),) if len(s) > 2 else ())
+                    + ((int(s[3]),) if len(s) > 3 and s[3] is not None
+                       else ())
                     for s in case['cfg'][g]) for g in GROUPS}
     run_case(ctx, case['kind'], int(case['version']), cfg,
              int(case.get('seed', 0)))
